@@ -373,6 +373,8 @@ def run(chk):
                        "denormals, +-0.0, range ends; ints.  non-trivial = distinct values inside the round-trip range "
                        "whose round trip was checked and that are not whole seconds (floats: all inside the range)")
     hist["schedulers_checked_for_now"] = nows["checked"]
+    ft = foreign_timezones(chk)
+    hist["foreign_timezone_runs"] = {"cases_per_timezone": ft[0], "local_utc_offsets_s": ft[1]} if ft else "failed"
     chk.cov["input_distribution"] = hist
     chk.add_samples([meta[i] for i in range(0, len(meta), max(1, len(meta) // 6))][:6])
     return chk.finish(
@@ -385,6 +387,76 @@ def run(chk):
                      "|t| < 2^33 s = 8589934592 s (about 272 years around the epoch), where binary64 spacing is below 1 us; "
                      "beyond it distinct microsecond counts share one double and no round trip is possible",
                      "`now` being timezone-aware UTC is checked by the harness on instantiable schedulers (not a theorem)"])
+
+
+# ---- the conversions must not depend on the process's LOCAL timezone ------------------------------------------
+TZ_CHILD = r"""
+import sys, json, random, time
+from datetime import datetime, timedelta, timezone
+from reactivex.scheduler.scheduler import Scheduler
+from reactivex.scheduler import VirtualTimeScheduler, HistoricalScheduler
+seed = int(sys.argv[1])
+rng = random.Random(seed)
+EPOCH = datetime(1970, 1, 1, tzinfo=timezone.utc)
+us = lambda dt: (dt - EPOCH) // timedelta(microseconds=1)
+tdus = lambda td: td // timedelta(microseconds=1)
+out = []
+for i in range(int(sys.argv[2])):
+    n = rng.randrange(-10**13, 10**13)
+    x = rng.randrange(-10**7, 10**7) / 8.0
+    off = rng.choice([0, 60, -300, 330, 345])
+    adt = (EPOCH + timedelta(microseconds=n)).astimezone(timezone(timedelta(minutes=off)))
+    out.append(["to_datetime(float)", x, us(Scheduler.to_datetime(x))])
+    out.append(["to_datetime(timedelta)", n, us(Scheduler.to_datetime(timedelta(microseconds=n)))])
+    out.append(["to_datetime(int)", int(x), us(Scheduler.to_datetime(int(x)))])
+    out.append(["to_seconds(datetime)", [n, off], Scheduler.to_seconds(adt).hex()])
+    out.append(["to_timedelta(datetime)", [n, off], tdus(Scheduler.to_timedelta(adt))])
+    out.append(["to_seconds(to_datetime(float))", x, Scheduler.to_seconds(Scheduler.to_datetime(x)).hex()])
+    out.append(["to_timedelta(to_datetime(timedelta))", n,
+                tdus(Scheduler.to_timedelta(Scheduler.to_datetime(timedelta(microseconds=n))))])
+v = VirtualTimeScheduler(250.0)
+out.append(["to_seconds(VirtualTimeScheduler(250.0).now)", 250.0, Scheduler.to_seconds(v.now).hex()])
+out.append(["VirtualTimeScheduler(250.0).now", 250.0, us(v.now)])
+out.append(["HistoricalScheduler().now", None, us(HistoricalScheduler().now)])
+out.append(["local utc offset of the child (s)", None, -time.timezone])
+print(json.dumps(out))
+"""
+
+
+def foreign_timezones(chk):
+    """oracle-only, metamorphic: the same conversions evaluated in child processes whose LOCAL timezone is UTC /
+    3 h east / 5 h 30 min west (TZ set before reactivex is imported, so import-time constants see it) must give
+    identical results"""
+    import os
+    import subprocess
+    import sys
+    n = 40 if chk.tier == "quick" else 400
+    seed = chk.rng.getrandbits(32)
+    runs = {}
+    for tz in ("UTC", "TST-03", "ABC+05:30"):
+        env = dict(os.environ, TZ=tz, PYTHONPATH=lib.REPO, PYTHONHASHSEED="0")
+        r = subprocess.run([sys.executable, "-c", TZ_CHILD, str(seed), str(n)], env=env, capture_output=True,
+                           text=True, timeout=120)
+        if r.returncode != 0:
+            chk.tie_broken("foreign-timezone child process failed", {"tz": tz, "stderr": r.stderr[-800:]})
+            return 0
+        runs[tz] = json.loads(r.stdout)
+    base = runs["UTC"]
+    chk.cov["evaluations"] += 3 * len(base)
+    offsets = {tz: rs[-1][2] for tz, rs in runs.items()}
+    for tz, rs in runs.items():
+        if tz == "UTC":
+            continue
+        for a, b in zip(base[:-1], rs[:-1]):
+            if a != b:
+                chk.violation(f"C36|local-timezone-dependence|{a[0]}",
+                              {"foreign_timezone": True, "seed": seed, "n": n, "conversion": a[0], "argument": a[1],
+                               "result with local timezone UTC": a[2], f"result with TZ={tz}": b[2],
+                               "what": "a conversion / `now` gives a different value when only the process's local "
+                                       "timezone differs (microseconds since the epoch, float.hex() for seconds)"},
+                              size=1)
+                break
+    return len(base), offsets
 
 
 def check_now():
@@ -444,6 +516,19 @@ def check_now():
 
 
 def replay(chk, path):
+    d0 = json.load(open(path))
+    if d0.get("foreign_timezone"):
+        class _R:       # re-run the family with the recorded seed
+            def getrandbits(self, _):
+                return d0["seed"]
+        before = len(chk.violations) if hasattr(chk, "violations") else 0
+        chk.rng = _R()
+        foreign_timezones(chk)
+        bad = (len(chk.violations) if hasattr(chk, "violations") else 0) > before
+        print("foreign-timezone family re-run with seed", d0["seed"], "->", "still differs" if bad else "agrees")
+        if bad:
+            print(f"VIOLATION property=C36 replay={path}")
+        return 1 if bad else 0
     from reactivex.scheduler.scheduler import Scheduler
     d = json.load(open(path))
     print(json.dumps(d, indent=1)[:3000])
